@@ -202,6 +202,7 @@ B("c16-template-missing-key", "C16", "C16-R3", (CFG, '            "follow_symlin
 B("c16-filename-swapped", "C16", "C16-R5", (CFG, "confuse.Filename(cwd=os.getcwd()) if not output_dir_relative_to_config", "confuse.Filename(cwd=os.getcwd()) if output_dir_relative_to_config"))
 B("c16-sections-swapped", "C16", "C16-R6", (CFG, '    rst_settings = RSTSettings(**input_dict["rst"])', '    rst_settings = RSTSettings(**input_dict["output"])'))
 B("c16-template-default-differs", "C16", "C16-R3", (CFG, 'confuse.Optional(confuse.String(), default=":keyword")', 'confuse.Optional(confuse.String(), default=":param **kwargs:")'))
+B("r6-list-template-accepts-str", "C16", "C16-R3", (CFG, "confuse.Optional(confuse.Sequence(confuse.String()), default=())", "confuse.Optional(list, default=())"))
 G("c16-help-text", ["C16"], (INIT, "Load settings from the specified YAML file.", "Load additional settings from a YAML file."))
 
 # ------------------------------------------------------------------ C19
